@@ -5,14 +5,15 @@ import Gen.BuildShape
 namespace Pyx.Sql
 open Gen.BuildShape (Phase)
 
-/-- the model of each `populate_<phase>` method (`populate_connections` raises nothing and changes neither classes,
-    identifiers, associations nor rows; the links it creates are `linksOf`, PyxModel/Sql/Links.lean) -/
+/-- the model of each `populate_<phase>` method (`populate_connections` changes neither classes, identifiers,
+    associations nor rows; the links it creates are `linksOf`, PyxModel/Sql/Links.lean; the one place where it can raise
+    is `connRaises`) -/
 def phaseFn (u : UC) (stmts : List Stmt) : Phase → BState → Except BuildErr BState
   | .classes => popClasses u stmts
   | .unique_identifiers => popIdents u stmts
   | .associations => popAssocs u stmts
   | .instances => popInstances u stmts
-  | .connections => fun s => .ok s
+  | .connections => popConnections u
 
 /-- run phases in a given order; the first exception ends the build -/
 def runPhases (u : UC) (stmts : List Stmt) : List Phase → BState → Except BuildErr BState
@@ -23,8 +24,11 @@ def runPhases (u : UC) (stmts : List Stmt) : List Phase → BState → Except Bu
     | .error e => .error e
 
 theorem build_eq_runPhases (u : UC) (stmts : List Stmt) :
-    build u stmts = runPhases u stmts Gen.BuildShape.populateOrder BState.empty := by
+    build u stmts = if touchesInternals stmts then .error .unmodelled
+      else runPhases u stmts Gen.BuildShape.populateOrder BState.empty := by
   unfold build
+  congr 1
+  unfold buildPhases buildCore
   simp only [Gen.BuildShape.populateOrder, runPhases, phaseFn]
   cases popClasses u stmts BState.empty with
   | error e => rfl
@@ -40,6 +44,8 @@ theorem build_eq_runPhases (u : UC) (stmts : List Stmt) :
         simp only
         cases popInstances u stmts s3 with
         | error e => rfl
-        | ok s4 => rfl
+        | ok s4 =>
+          simp only
+          cases popConnections u s4 <;> rfl
 
 end Pyx.Sql
